@@ -77,6 +77,9 @@ SWAP_ATTRS = {"max_freq": "min_freq", "min_freq": "max_freq", "start": "stop", "
 SWAP_STR = {"int": "frac", "frac": "int", "bottom": "top", "top": "bottom", "linear": "circular", "circular": "linear"}
 
 
+EFFECT_PREFIXES = ("in-place-ify", "store the first argument", "drop the copy", "force `", "`")
+
+
 class Mutator(ast.NodeTransformer):
     """Applies exactly the k-th applicable mutation inside the target function; counts sites when k is None."""
     def __init__(self, target_qual, k=None):
@@ -86,6 +89,7 @@ class Mutator(ast.NodeTransformer):
         self.desc = None
         self._in = False
         self._cls = []
+        self._fn_params = []
 
     def _hit(self, desc):
         self.count += 1
@@ -105,8 +109,11 @@ class Mutator(ast.NodeTransformer):
         was = self._in
         if q == self.target and not self._in:
             self._in = True
+            names = [a.arg for a in node.args.posonlyargs + node.args.args]
+            self._fn_params.append((names[0], names[1]) if (self._cls and len(names) >= 2 and names[0] == "self") else None)
             node.body = self._stmts(node.body)
             self.generic_visit(node)
+            self._fn_params.pop()
             self._in = was
             return node
         if self._in:
@@ -125,6 +132,22 @@ class Mutator(ast.NodeTransformer):
                 or (isinstance(s, ast.Assign) and isinstance(s.targets[0], (ast.Subscript, ast.Attribute)))
             if deletable and self._hit(f"delete statement `{ast.unparse(s)[:70]}`"):
                 out.append(ast.Pass())
+                continue
+            # effect-introducing operators: blind value mutants never create a write, a forcing or a state store
+            if isinstance(s, ast.Assign) and len(s.targets) == 1 and isinstance(s.targets[0], ast.Name) and isinstance(s.value, ast.BinOp) \
+                    and isinstance(s.value.op, (ast.Add, ast.Sub, ast.Mult, ast.Div)) \
+                    and not isinstance(s.value.left, ast.Constant) \
+                    and self._hit(f"in-place-ify `{ast.unparse(s)[:60]}` (x = a op b  ->  x = a; x op= b)"):
+                out.append(ast.copy_location(ast.Assign(targets=s.targets, value=s.value.left), s))
+                aug = ast.AugAssign(target=ast.Name(id=s.targets[0].id, ctx=ast.Store()), op=s.value.op, value=s.value.right)
+                out.append(ast.copy_location(aug, s))
+                continue
+            if isinstance(s, ast.Return) and s.value is not None and self._fn_params and self._fn_params[-1] \
+                    and self._hit(f"store the first argument on self before `{ast.unparse(s)[:50]}`"):
+                selfn, first = self._fn_params[-1]
+                st = ast.parse(f"{selfn}._pbv_last = {first}").body[0]
+                out.append(ast.copy_location(st, s))
+                out.append(s)
                 continue
             for fld in ("body", "orelse", "finalbody"):
                 if hasattr(s, fld) and isinstance(getattr(s, fld), list) and getattr(s, fld) and isinstance(getattr(s, fld)[0], ast.stmt):
@@ -184,6 +207,10 @@ class Mutator(ast.NodeTransformer):
 
     def visit_Attribute(self, node):
         self.generic_visit(node)
+        if self._in and node.attr == "data" and isinstance(node.ctx, ast.Load) and isinstance(node.value, ast.Name) and node.value.id != "self" \
+                and self._hit(f"force `{ast.unparse(node)}` through np.asarray"):
+            return ast.copy_location(ast.Call(func=ast.Attribute(value=ast.Name(id="np", ctx=ast.Load()), attr="asarray", ctx=ast.Load()),
+                                              args=[node], keywords=[]), node)
         if self._in and node.attr in SWAP_ATTRS and isinstance(node.ctx, ast.Load) and self._hit(f"attribute .{node.attr} -> .{SWAP_ATTRS[node.attr]}"):
             node.attr = SWAP_ATTRS[node.attr]
         return node
@@ -197,6 +224,16 @@ class Mutator(ast.NodeTransformer):
         self.generic_visit(node)
         if not self._in:
             return node
+        if isinstance(node.func, ast.Attribute) and node.func.attr == "copy" and not node.args and not node.keywords \
+                and self._hit(f"drop the copy in `{ast.unparse(node)[:60]}`"):
+            return node.func.value
+        if isinstance(node.func, ast.Name) and node.func.id in ("dict", "list") and len(node.args) == 1 and not node.keywords \
+                and isinstance(node.args[0], (ast.Name, ast.Attribute)) and self._hit(f"drop the copy in `{ast.unparse(node)[:60]}`"):
+            return node.args[0]
+        if isinstance(node.func, ast.Attribute) and node.func.attr in ("conj", "conjugate") and not node.args \
+                and isinstance(node.func.value, ast.Name) and self._hit(f"`{ast.unparse(node)[:40]}` -> np.conjugate(x, out=x)"):
+            x = node.func.value.id
+            return ast.copy_location(ast.parse(f"np.conjugate({x}, out={x})").body[0].value, node)
         if len(node.args) == 2 and not node.keywords and not any(isinstance(a, ast.Starred) for a in node.args) \
                 and ast.unparse(node.args[0]) != ast.unparse(node.args[1]):
             if self._hit(f"swap arguments of `{ast.unparse(node)[:60]}`"):
@@ -227,6 +264,17 @@ def mutants_for(pid, seed, limit):
             sites.append((rel, qual, k))
     rng = random.Random(seed * 1000003 + sum(map(ord, pid)))
     rng.shuffle(sites)
+    # effect-introducing mutants are rare among all sites: take up to a third of the sample from them first
+    effect = []
+    for rel, qual, k in sites:
+        m = Mutator(qual, k)
+        m.visit(ast.parse(srcs[rel]))
+        if m.desc and m.desc.startswith(EFFECT_PREFIXES):
+            effect.append((rel, qual, k))
+        if len(effect) >= limit // 3:
+            break
+    rest = [x for x in sites if x not in effect]
+    sites = effect + rest
     for rel, qual, k in sites[: limit * 2]:
         tree = ast.parse(srcs[rel])
         m = Mutator(qual, k)
